@@ -54,7 +54,7 @@ pub fn lzip_wrap(alone: &[u8], dict_byte: u8, data: &[u8]) -> Vec<u8> {
 }
 
 pub fn gen(rng: &mut Rng, tier: &str, dist: &mut Dist) -> Vec<String> {
-    let n = if tier == "thorough" { 4000 } else { 400 };
+    let n = if tier == "thorough" { 10000 } else { 1200 };
     let max_len = if tier == "thorough" { 8000 } else { 1500 };
     let mut cmds = Vec::new();
     for i in 0..n {
